@@ -92,6 +92,29 @@ func Run(r *core.Run) {
 	}
 	addKeys("duplicate-id", []any{good, clone(good)}, &no)
 	addKeys("duplicate-id-nonadjacent", []any{good, key("other", "JsonWebKey2020", "jwk", nil), clone(good)}, &no)
+	// every ordered selection of three purposes that contains keyAgreement, for every key type and material (a rule looked up per
+	// purpose must hold wherever in the list the purpose stands)
+	{
+		verification := []string{"authentication", "assertionMethod", "capabilityDelegation", "capabilityInvocation"}
+		n := 0
+		for _, t := range keyTypes {
+			for _, mat := range []string{"jwk", "base58"} {
+				for ai, a := range verification {
+					for bi, b := range verification {
+						if ai == bi {
+							continue
+						}
+						for pos := 0; pos < 3; pos++ {
+							l := []any{a, b}
+							l = append(l[:pos], append([]any{"keyAgreement"}, l[pos:]...)...)
+							addKeys(fmt.Sprintf("purpose-order-%d", n), []any{key("key-1", t, mat, l)}, nil)
+							n++
+						}
+					}
+				}
+			}
+		}
+	}
 	// the same id twice over every ordered pair of key shapes (JWK / base58 material, four types), adjacent and with a key in between,
 	// in an add-public-keys patch and in a replace document
 	{
